@@ -8,6 +8,7 @@
 #include <AIToolbox/Utils/Probability.hpp>
 #include <AIToolbox/POMDP/Algorithms/AMDP.hpp>
 #include <AIToolbox/Seeder.hpp>
+#include <AIToolbox/Factored/MDP/CooperativeModel.hpp>
 #include <memory>
 #include <optional>
 #include "vio.hpp"
@@ -266,9 +267,9 @@ static void runIsProb(vio::Cursor & c, vio::Out & o) {
 
 
 // ---- AMDP: "amdp <d|s> <seed> <nBeliefs> <buckets> O <Ob flat [s1][a][o]> S A d <T flat> <R flat>" ----
-// Output: S1 A discount, T' [a][s][s1], R' [s][a] of the derived model, then the accumulators
-// (T_acc, R_acc) recomputed here from the same beliefs (same root seed) with the returned
-// discretizer, i.e. the input of the final normalisation loop.
+// Output: S1 A discount, T' [a][s][s1], R' [s][a] of the derived model, then the contributions
+// (s, a, s1, p, r) of the accumulation loop, recomputed here from the same beliefs (same root seed,
+// same model RNG state) with the library's own pieces and the returned discretizer.
 template <bool sparse>
 static void runAmdp(vio::Cursor & c, vio::Out & o) {
     const unsigned seed = (unsigned) c.nextSize();
@@ -298,8 +299,10 @@ static void runAmdp(vio::Cursor & c, vio::Out & o) {
     Seeder::setRootSeed(seed);
     POMDP::BeliefGenerator bGen(pm2);
     const auto beliefs = bGen(nBeliefs);
-    std::vector<Matrix2D> T(A, Matrix2D::Zero(S1, S1));
-    Matrix2D R = Matrix2D::Zero(S1, A);
+    // the contributions of the accumulation loop, in loop order: (s, a, s1, p, r); for skipped ones
+    // (p within 1e-6 of 0) the library never computes s1: reported as 0
+    struct C { size_t s, a, s1; double p, r; };
+    std::vector<C> cs;
     POMDP::Belief b1(S);
     for (const auto & b : beliefs) {
         const size_t s = discretizer(b);
@@ -308,20 +311,91 @@ static void runAmdp(vio::Cursor & c, vio::Out & o) {
             for (size_t ob = 0; ob < O; ++ob) {
                 POMDP::updateBeliefUnnormalized(pm2, b, a, ob, &b1);
                 const double p = b1.sum();
-                if (checkDifferentSmall(0.0, p)) {
-                    b1 /= p;
-                    const size_t s1 = discretizer(b1);
-                    if (s >= S1 || s1 >= S1) throw std::logic_error("harness: discretizer out of range");
-                    T[a](s, s1) += p;
-                    if (!sparse || checkDifferentSmall(0.0, r)) R(s, a) += p * r;
-                }
+                size_t s1 = 0;
+                if (checkDifferentSmall(0.0, p)) { b1 /= p; s1 = discretizer(b1); }
+                cs.push_back(C{s, a, s1, p, r});
             }
         }
     }
-    o << (size_t)(A * S1 * S1);
-    for (size_t a = 0; a < A; ++a) for (size_t s = 0; s < S1; ++s) for (size_t s1 = 0; s1 < S1; ++s1) o << T[a](s, s1);
-    o << (size_t)(S1 * A);
-    for (size_t s = 0; s < S1; ++s) for (size_t a = 0; a < A; ++a) o << R(s, a);
+    o << cs.size();
+    for (const auto & c : cs) o << c.s << c.a << c.s1 << c.p << c.r;
+}
+
+// ---- CooperativeModel: "coop <S list> <A list> <npush> pushes… <nops> ops…" --------------------------
+//   push  := <agents list> <nfeat> <feature list>*
+//   op    := cctor <d> <nT> (<rows> <cols> <data list>)* <nR> (<tag list> <actionTag list> <rows> <cols>)*
+//          | csetd <d>
+// Output: per push "POK|PRT|PINV <#parent sets>", per op "OK|THROW <type>|NOOBJ" + dump of every getter.
+static void runCoop(vio::Cursor & c, vio::Out & o) {
+    namespace F = AIToolbox::Factored;
+    auto readIds = [&] { auto v = c.nextSizes(); return F::PartialKeys(v.begin(), v.end()); };
+    auto Sv = c.nextSizes(); auto Av = c.nextSizes();
+    F::State S(Sv.begin(), Sv.end()); F::Action A(Av.begin(), Av.end());
+    F::DDNGraph graph(S, A);
+    const size_t npush = c.nextSize();
+    for (size_t i = 0; i < npush; ++i) {
+        F::DDNGraph::ParentSet ps;
+        ps.agents = readIds();
+        const size_t nf = c.nextSize();
+        for (size_t j = 0; j < nf; ++j) ps.features.push_back(readIds());
+        try { graph.push(std::move(ps)); o << "POK"; }
+        catch (const std::invalid_argument &) { o << "PINV"; }
+        catch (const std::runtime_error &) { o << "PRT"; }
+        o << graph.getParentSets().size();
+    }
+    std::unique_ptr<F::MDP::CooperativeModel> obj;
+    auto dumpCoop = [&] {
+        if (!obj) { o << "NONE"; return; }
+        const auto & m = *obj;
+        o << "D" << m.getDiscount();
+        o.list(m.getS()); o.list(m.getA());
+        const auto & pss = m.getGraph().getParentSets();
+        o << pss.size();
+        for (const auto & ps : pss) { o.list(ps.agents); o << ps.features.size(); for (const auto & f : ps.features) o.list(f); }
+        const auto & T = m.getTransitionFunction().transitions;
+        o << T.size();
+        for (const auto & t : T) {
+            o << (size_t) t.rows() << (size_t) t.cols() << (size_t) (t.rows() * t.cols());
+            for (long i = 0; i < t.rows(); ++i) for (long j = 0; j < t.cols(); ++j) o << t(i, j);
+        }
+        const auto & R = m.getRewardFunction().bases;
+        o << R.size();
+        for (const auto & b : R) { o.list(b.tag); o.list(b.actionTag); o << (size_t) b.values.rows() << (size_t) b.values.cols(); }
+    };
+    const size_t nops = c.nextSize();
+    for (size_t i = 0; i < nops; ++i) {
+        const std::string op = c.next();
+        if (op == "cctor") {
+            const double d = c.nextDouble();
+            F::DDN::TransitionMatrix T;
+            const size_t nT = c.nextSize();
+            for (size_t k = 0; k < nT; ++k) {
+                const size_t rows = c.nextSize(), cols = c.nextSize();
+                auto data = c.nextDoubles();
+                if (data.size() != rows * cols) throw std::logic_error("harness: matrix size mismatch");
+                Matrix2D m(rows, cols);
+                for (size_t x = 0; x < rows; ++x) for (size_t y = 0; y < cols; ++y) m(x, y) = data[x * cols + y];
+                T.push_back(std::move(m));
+            }
+            F::FactoredMatrix2D R;
+            const size_t nR = c.nextSize();
+            for (size_t k = 0; k < nR; ++k) {
+                F::BasisMatrix b; b.tag = readIds(); b.actionTag = readIds();
+                const size_t rows = c.nextSize(), cols = c.nextSize();
+                b.values = Matrix2D::Zero(rows, cols);
+                R.bases.push_back(std::move(b));
+            }
+            try {
+                auto tmp = std::make_unique<F::MDP::CooperativeModel>(graph, std::move(T), std::move(R), d);
+                obj = std::move(tmp); o << "OK";
+            } catch (const std::exception & e) { o << "THROW" << vio::exnName(e); }
+        } else if (op == "csetd") {
+            const double d = c.nextDouble();
+            if (!obj) o << "NOOBJ";
+            else try { obj->setDiscount(d); o << "OK"; } catch (const std::exception & e) { o << "THROW" << vio::exnName(e); }
+        } else throw std::logic_error("harness: unknown coop op " + op);
+        dumpCoop();
+    }
 }
 
 int main(int argc, char ** argv) {
@@ -332,6 +406,7 @@ int main(int argc, char ** argv) {
         else if (kind == "pd") runSeq<POMDP::Model<MDP::Model>>(c, o);
         else if (kind == "ps") runSeq<POMDP::SparseModel<MDP::SparseModel>>(c, o);
         else if (kind == "isprob") runIsProb(c, o);
+        else if (kind == "coop") runCoop(c, o);
         else if (kind == "amdp") { const std::string v = c.next(); if (v == "s") runAmdp<true>(c, o); else runAmdp<false>(c, o); }
         else throw std::logic_error("harness: unknown case kind " + kind);
     });
